@@ -26,7 +26,7 @@ CHECKS = {
          TB + "dtype preservation oracle-checked; roundoff outside the model", "§5 C04"),
  "C07": ("proof",
          "Lean theorems: the left-to-right sweeps of sum() (all / any subset of modes incl. the singleton-removal pass), dot (Gram chain, conjugating the second argument), squared norm (autograd branch), bilinear_form and apply_mask equal the dense reductions for all orders, mode/rank profiles and core values (conjugation = any ring endomorphism). "
-         "Tie: exact correspondence on integer / Gaussian-integer cases; the QR-sweep norm (no autograd) is a float computation compared numerically (1e-12) with the exact Gram value.",
+         "Tie: exact correspondence on integer / Gaussian-integer cases; the QR-sweep norm is replayed with an exact integer QR oracle against Decomp.normSqQR (theorems C07d) and compared numerically (1e-12) with the exact Gram value; translator tie for the three einsum strings of bilinear_form_aux (generated Lean defs = Reduce.bilA/B/C by rfl; theorems C07e).",
          TB + "norm() via QR relies on tn.linalg.qr being orthonormal (numerical comparison only); sqrt outside the model", "§5 C07"),
  "C08": ("proof",
          "Lean theorems: per-core slicing (ints, slices with steps, None) followed by the removal of integer-indexed modes returns exactly the dense sub-array (value and shape), fully integer indices give the scalar entry, reduce_dims preserves the represented tensor for every exclusion list, apply_mask evaluates full at the given indices. "
@@ -131,7 +131,7 @@ def main():
             "engine": "lean-model+correspondence",
             "level_claimed": {"category": cat, "text": text, "design_ref": "DESIGN.md " + ref},
             "level_note": note,
-            "technique": TECH_GEN if pid in ("C11", "C12", "C13", "C16") else TECH,
+            "technique": TECH_GEN if pid in ("C07", "C11", "C12", "C13", "C16") else TECH,
         })
     man = {
         "version": 1,
